@@ -195,7 +195,7 @@ func (w *World) exchange(p *pfcpx.Peer, kind string, req map[string]interface{},
 
 	p.Drain()
 
-	cmds0 := w.Bess.Snapshot().Cmds
+	cmds0, _, _ := w.Bess.Counts()
 	logMark := w.dropLogCount()
 	rpcs0 := 0
 
@@ -680,6 +680,81 @@ func (w *World) Report(peer string, upSeid uint64, cause uint8) []pfcpx.Dgram {
 	w.CheckAlive()
 
 	return ds
+}
+
+// ReportMany makes the BESS datapath report downlink data for many sessions at once (one message each, written back
+// to back), collects the Session Report Requests the agent sends for up to `wait`, answers them, and records one "report"
+// event per session with the request that carried that session's CP SEID (cps[i] belongs to ups[i]).
+func (w *World) ReportMany(peer string, ups, cps []uint64, wait time.Duration) int {
+	p := w.Peer(peer)
+	p.Drain()
+
+	if w.NotifyC == nil {
+		w.LastErr = "notify socket not connected"
+		return 0
+	}
+
+	tms := int(time.Since(w.t0) / time.Millisecond)
+
+	for _, up := range ups {
+		b := make([]byte, 8)
+		for i := 0; i < 8; i++ {
+			b[i] = byte(up >> (8 * i))
+		}
+
+		_, _ = w.NotifyC.Write(b)
+	}
+
+	byCp := map[uint64][]pfcpx.Dgram{}
+	got := 0
+	deadline := time.Now().Add(wait)
+	quietSince := time.Now()
+
+	for time.Now().Before(deadline) && (got < len(ups) || time.Since(quietSince) < 200*time.Millisecond) {
+		ds := p.Drain()
+		if len(ds) == 0 {
+			if got >= len(ups) && time.Since(quietSince) >= 200*time.Millisecond {
+				break
+			}
+
+			time.Sleep(2 * time.Millisecond)
+
+			continue
+		}
+
+		quietSince = time.Now()
+
+		for _, d := range ds {
+			byCp[d.SEID] = append(byCp[d.SEID], d)
+			got++
+
+			for i, cp := range cps {
+				if cp == d.SEID {
+					_ = p.Send(message.NewSessionReportResponse(0, 0, ups[i], d.Seq, 0, ie.NewCause(ie.CauseRequestAccepted)))
+					break
+				}
+			}
+		}
+	}
+
+	for i, up := range ups {
+		srr := []map[string]interface{}{}
+
+		for _, d := range byCp[cps[i]] {
+			m := w.respJSON(d)
+			m["dldr"], m["hasDldr"], m["report"] = maxInt(d.DLDRPdr, 0), d.DLDRPdr >= 0, maxInt(d.Report, 0)
+			srr = append(srr, m)
+		}
+
+		ev := map[string]interface{}{"ev": "report", "peer": p.Name, "u": w.UpTok.Reg(up), "srr": srr, "cause": 1, "t": tms}
+		w.dpObs(ev)
+		w.emit(ev)
+		w.Steps++
+	}
+
+	w.CheckAlive()
+
+	return got
 }
 
 // EstabBurst sends one establishment per peer at the same time and records them one after the other (in the
